@@ -235,7 +235,9 @@ def d4_rejected(facts, rep):
             # leaving with the predecessor reserved is fine: it is parked in reserved_src (checked: the store precedes the try_reserve)
             ok = bool(rs)
             rep.ob('D4', 'K3', fn, 'a predecessor taken for reservation is parked in reserved_src or given back', ok, 'reserved predecessor dropped', ln=node['ln'])
-    rep.floor('D4', 12, 'rejection handling')
+    from rules.C15 import join_forwarding
+    join_forwarding(facts, rep, 'D4')
+    rep.floor('D4', 13, 'rejection handling')
 
 
 def d5_wait(facts, rep):
